@@ -651,7 +651,9 @@ class Message:
                 self.tsig.add(new_tsig)
                 if multi:
                     self.tsig_ctx = ctx
-            r.add_rrset(dns.renderer.ADDITIONAL, self.tsig)
+            # Use the renderer's TSIG writer: it does not compress the owner name when
+            # padding was added, as the padding was computed from the uncompressed size.
+            r._write_tsig(self.tsig[0], self.tsig.name)
             r.write_header()
         wire = r.get_wire()
         self.wire = wire
